@@ -3,7 +3,8 @@
 (* pos = cursor offset 0..Len(text); caplen = length of the caption in front of it.           *)
 (* The display is given as `stops`: for every display row the sequence of cursor stops        *)
 (* <<p, col, w>> (p = offset into caption+text of the character shown at column col with      *)
-(* width w; the last stop of a row is the end-of-row stop with w = 0).  In trace validation   *)
+(* width w; the last stop of a row is the end-of-row stop with w = 0; a zero-width character   *)
+(* is a stop <<p, col, 0, 1>>, see IsMark).  In trace validation   *)
 (* the stops come from the layout the implementation itself reports (checked by C03); in      *)
 (* the model they come from a simple fixed-width wrap.                                        *)
 EXTENDS Integers, Sequences, FiniteSets, TLC
@@ -15,12 +16,17 @@ DeleteAt(s, i) == SubSeq(s, 1, i) \o SubSeq(s, i + 2, Len(s))                 \*
 
 \* the stop on row `row` (1-based) chosen for column x: the stop whose cell contains x, the end-of-row stop when x
 \* lies beyond the text, the first stop when x lies before it.  x = -1 means 'left', -2 means 'right'.
+\* A zero-width (combining) character is drawn into the cell of the character in front of it: its stop <<p, col, 0, 1>> (fourth component 1)
+\* stands in the middle of a row, has no cell, and no column designates it.  The end of a row is its end-of-row stop, or - a soft-wrapped
+\* row has none - its last character that has a cell.
+IsMark(s) == Len(s) > 3 /\ s[4] = 1
+EndIdx(row) == LET c == {i \in 1..Len(row) : ~IsMark(row[i])} IN IF c = {} THEN Len(row) ELSE CHOOSE i \in c : \A j \in c : j <= i
 StopFor(row, x) ==
-  LET n == Len(row) IN
+  LET n == EndIdx(row) IN
   IF x = -1 THEN row[1]
   ELSE IF x = -2 THEN row[n]
-  ELSE IF \E i \in 1..n : row[i][2] <= x /\ x < row[i][2] + Max2(row[i][3], 1) /\ row[i][3] > 0
-       THEN row[CHOOSE i \in 1..n : row[i][2] <= x /\ x < row[i][2] + row[i][3] /\ row[i][3] > 0]
+  ELSE IF \E i \in 1..Len(row) : row[i][2] <= x /\ x < row[i][2] + row[i][3] /\ row[i][3] > 0
+       THEN row[CHOOSE i \in 1..Len(row) : row[i][2] <= x /\ x < row[i][2] + row[i][3] /\ row[i][3] > 0]
   ELSE IF x < row[1][2] THEN row[1]
   ELSE row[n]
 
@@ -68,12 +74,57 @@ WrapRows(full, i, w, row, acc) ==
   ELSE WrapRows(full, i + 1, w, Append(row, <<i - 1, Len(row), 1>>), acc)
 ModelStops(caption, text, w) == WrapRows(caption \o text, 1, w, <<>>, <<>>)
 
-\* the cell where the cursor is drawn for offset p: the first row holding a non-end stop for p, else the row whose end stop is p
-CursorOf(stops, p) ==
-  LET cand == {c \in (1..Len(stops)) \X (1..40) : c[2] <= Len(stops[c[1]]) /\ stops[c[1]][c[2]][1] = p}
+\* ---- the display of the model: alignment and the view shifted to the cursor ------------------------------------------------------
+\* A row narrower than the widget is moved right by its alignment padding (any split of the spare columns is a centring; the model
+\* uses the larger half on the left); a clipped row wider than the widget is moved left the same way (negative padding).  The focused widget shows the cursor row shifted by the least amount that brings the cursor
+\* cell into the widget: left when the cursor stands behind a row that fills the widget, right when it stands left of column 0.
+ShiftRow(row, d) == IF d = 0 THEN row ELSE TLCEval([i \in 1..Len(row) |-> <<row[i][1], row[i][2] + d, row[i][3]>>])
+RowWidth(row) == row[Len(row)][2] - row[1][2]
+AlignPad(row, w, align) == LET spare == w - RowWidth(row)
+                           IN IF align = "left" THEN 0 ELSE IF align = "right" THEN spare ELSE (spare + 1) \div 2
+AlignStops(stops, w, align) == IF align = "left" THEN stops ELSE TLCEval([r \in 1..Len(stops) |-> ShiftRow(stops[r], AlignPad(stops[r], w, align))])
+\* (row, index) of the stop that shows offset p: the first non-end stop, else the first end stop
+StopOf(stops, p) ==
+  LET cand == UNION {{<<r, i>> : i \in {j \in 1..Len(stops[r]) : stops[r][j][1] = p}} : r \in 1..Len(stops)}
       real == {c \in cand : stops[c[1]][c[2]][3] > 0}
       pool == IF real # {} THEN real ELSE cand
       Before(c, d) == c[1] < d[1] \/ (c[1] = d[1] /\ c[2] <= d[2])
-      best == CHOOSE c \in pool : \A d \in pool : Before(c, d)
-  IN <<stops[best[1]][best[2]][2], best[1] - 1>>
+  IN CHOOSE c \in pool : \A d \in pool : Before(c, d)
+\* variant "shift" is the contract; "noshift" (the view never follows the cursor) and "keepOnCancel" (a shift that cancels the
+\* alignment padding exactly is dropped) are wrong designs the model must refute
+ViewStops(stops, p, w, variant) ==
+  LET c == StopOf(stops, p)  row == stops[c[1]]  x == row[c[2]][2]
+      d == IF x >= w THEN -(x - w + 1) ELSE IF x < 0 THEN -x ELSE 0
+      pad == row[1][2]
+      dd == IF variant = "noshift" THEN 0 ELSE IF variant = "keepOnCancel" /\ pad # 0 /\ pad + d = 0 THEN 0 ELSE d
+  IN IF dd = 0 THEN stops ELSE TLCEval([stops EXCEPT ![c[1]] = ShiftRow(row, dd)])
+\* the cursor clauses, the same for every alignment and wrap mode: the cursor cell lies inside the widget ...
+CursorInside(cur, w, nrows) == cur[1] >= 0 /\ cur[1] < w /\ cur[2] >= 0 /\ cur[2] < nrows
+\* ... and is the cell of the stop that shows offset p
+CursorOnStop(cur, stops, p) == cur[2] + 1 \in 1..Len(stops) /\ \E i \in 1..Len(stops[cur[2] + 1]) : stops[cur[2] + 1][i][1] = p /\ stops[cur[2] + 1][i][2] = cur[1]
+
+\* ---- the integer variant -------------------------------------------------------------------------------------------------------
+\* IntEdit is the reference editor restricted to decimal digits; after every key it uses (not after a click), the zeros in front of the number that stand
+\* left of the cursor are dropped and the cursor keeps designating the same remaining digit (zeros at or behind the cursor stay: the
+\* documented example 5002, home, delete shows '002').  A dropped zero is a text change: the preferred column is forgotten.
+IsDigit(c) == c >= 48 /\ c <= 57
+LeadingZeros(text) == Cardinality({k \in 1..Len(text) : \A j \in 1..k : text[j] = 48})
+TrimZeros(text, pos) == LET d == Min2(LeadingZeros(text), pos) IN [text |-> SubSeq(text, d + 1, Len(text)), pos |-> pos - d, dropped |-> d]
+\* variant "trim" is the contract; "clampFirst" is a wrong design: the text is shortened first, a cursor behind the new end is pulled back
+\* by the shortening AND moved left once more
+RECURSIVE TrimClampFirst(_, _)
+TrimClampFirst(t, p) == IF p > 0 /\ t # <<>> /\ t[1] = 48 THEN TrimClampFirst(Tail(t), Max2(Min2(p, Len(t) - 1) - 1, 0)) ELSE [text |-> t, pos |-> p]
+TrimZerosV(text, pos, variant) ==
+  IF variant # "clampFirst" THEN TrimZeros(text, pos)
+  ELSE LET t == TrimClampFirst(text, pos) IN [text |-> t.text, pos |-> t.pos, dropped |-> Len(text) - Len(t.text)]
+RefInt(st, key, cur, stops, caplen, opt, variant) ==
+  IF key.k = "char" /\ ~IsDigit(key.c)
+  THEN [text |-> st.text, pos |-> st.pos, pref |-> st.pref, handled |-> FALSE, exact |-> TRUE, row |-> 0]
+  ELSE LET r == Ref(st, key, cur, stops, caplen, opt) IN
+       IF ~r.handled \/ key.k = "click" THEN r          \* the mouse only moves the cursor: zeros are dropped by keys
+       ELSE LET t == TrimZerosV(r.text, r.pos, variant)
+            IN [r EXCEPT !.text = t.text, !.pos = t.pos, !.pref = IF t.dropped > 0 THEN -9 ELSE r.pref]
+
+\* the cell where the cursor is drawn for offset p: the first row holding a non-end stop for p, else the row whose end stop is p
+CursorOf(stops, p) == LET c == StopOf(stops, p) IN <<stops[c[1]][c[2]][2], c[1] - 1>>
 ================================================================================
